@@ -4,11 +4,21 @@
 From Coupe Require Import Lib.Prelude Lib.SFloat Model.GridRcb Proofs.GridRcbMedian Proofs.GridRcbTree.
 Open Scope nat_scope.
 
-Lemma bal_prop_b_sound tot wl sr sl : bal_prop_b tot wl sr sl = true -> bal_prop tot wl sr sl.
-Proof. unfold bal_prop_b, bal_prop. lia. Qed.
+Lemma adjacent_b_iff tot wl sr sl : adjacent_b tot wl sr sl = true <-> adjacent tot wl sr sl.
+Proof. unfold adjacent_b, adjacent. lia. Qed.
 
-Lemma bal_prop_b_complete tot wl sr sl : bal_prop tot wl sr sl -> bal_prop_b tot wl sr sl = true.
-Proof. unfold bal_prop_b, bal_prop. lia. Qed.
+Lemma bal_unit_b_iff tot wl sr sl : bal_unit_b tot wl sr sl = true <-> bal_unit tot wl sr sl.
+Proof.
+  unfold bal_unit_b, bal_unit, band_unit_b, band_unit. rewrite orb_true_iff, adjacent_b_iff, Z.leb_le. tauto.
+Qed.
+
+Lemma bal_rel_b_iff e tot wl sr sl : bal_rel_b e tot wl sr sl = true <-> bal_rel e tot wl sr sl.
+Proof.
+  unfold bal_rel_b, bal_rel, band_rel_b, band_rel. rewrite orb_true_iff, adjacent_b_iff, Z.leb_le. tauto.
+Qed.
+
+Lemma bal_prop_b_iff fw tot wl sr sl : bal_prop_b fw tot wl sr sl = true <-> bal_prop fw tot wl sr sl.
+Proof. destruct fw; [apply bal_unit_b_iff|apply bal_rel_b_iff]. Qed.
 
 Lemma TreeOK_mono D f (b1 b2 : Z -> Z -> Z -> Z -> Prop) :
   (forall t w r l, b1 t w r l -> b2 t w r l) ->
@@ -28,8 +38,12 @@ Proof.
   exists t. split; [|exact Hc]. eapply TreeOK_mono; eauto.
 Qed.
 
+Section Sound.
+Variables (bal : Z -> Z -> Z -> Z -> Prop) (balb : Z -> Z -> Z -> Z -> bool).
+Hypothesis Hrefl : forall t w r l, balb t w r l = true -> bal t w r l.
+
 Lemma check_tree_sound D f : forall t d c sub,
-  check_tree D f d c sub t = true -> TreeOK D f bal_prop d c sub t.
+  check_tree D f balb d c sub t = true -> TreeOK D f bal d c sub t.
 Proof.
   induction t as [|p l IHl r IHr]; intros d c sub H.
   - destruct d as [|d]; [constructor|]. cbn [check_tree] in H.
@@ -43,7 +57,7 @@ Proof.
     eapply T_node; eauto.
     + destruct (Nat.eqb_spec size 0); [discriminate|auto].
     + apply Nat.leb_le in Hle. apply Nat.ltb_lt in Hlt. lia.
-    + unfold node_bal. apply bal_prop_b_sound. assumption.
+    + unfold node_bal. apply Hrefl. assumption.
 Qed.
 
 Lemma list_eqb_N_eq a : forall b, list_eqb_N a b = true -> a = b.
@@ -53,7 +67,7 @@ Proof.
 Qed.
 
 Theorem check_C10_sound s ds ws k ids :
-  check_C10 s ds ws k ids = true -> C10_spec bal_prop s ds ws k ids.
+  check_C10 balb s ds ws k ids = true -> C10_spec bal s ds ws k ids.
 Proof.
   unfold check_C10. intros H.
   apply andb_true_iff in H as [H Hrest]. apply andb_true_iff in H as [H Hlt].
@@ -79,3 +93,4 @@ Proof.
     destruct (position_of_ok ds i HD' Hsides Hi) as (pos & Hp & Hb & Hix & _).
     rewrite Hp in Hq. cbn [bind] in Hq. exists pos, q. auto.
 Qed.
+End Sound.
